@@ -127,6 +127,7 @@ type vLab struct {
 	size, w int64
 	tk      int64
 	cw      int64
+	sg      int64 // cond.signals: wake-ups issued and not yet taken (repaired cond, a6d2b6d09)
 }
 
 // a consumer goroutine inside Read
@@ -240,6 +241,19 @@ func (e *vEng) snap() (size, w, tk int64) {
 	return
 }
 
+// cond.signals (guarded by the queue mutex), read by reflection so that the harness also builds against a cond.go
+// without that field (the pre-repair cond, tried as the revert-the-fix edit): such a cond has no pending-signal
+// counter and reports 0
+func (e *vEng) sigs() int64 {
+	e.mu.Lock()
+	defer e.mu.Unlock()
+	f := reflect.ValueOf(e.cnd).Elem().FieldByName("signals")
+	if !f.IsValid() {
+		return 0
+	}
+	return f.Int()
+}
+
 // ids currently stored in the queue, head first (in-memory: the linked list; persistent: the
 // storage range [readIndex, writeIndex))
 func (e *vEng) itemIDs() []int {
@@ -279,9 +293,9 @@ func (e *vEng) itemIDs() []int {
 func (e *vEng) term() string {
 	it := make([]string, len(e.labels))
 	for i, l := range e.labels {
-		o := "(" + vZ(l.res) + ", (-1)%Z, (-1)%Z, (-1)%Z, (-1)%Z)"
+		o := "(" + vZ(l.res) + ", (-1)%Z, (-1)%Z, (-1)%Z, (-1)%Z, (-1)%Z)"
 		if l.obs {
-			o = "(" + vZ(l.res) + ", " + vZ(l.size) + ", " + vZ(l.w) + ", " + vZ(l.tk) + ", " + vZ(l.cw) + ")"
+			o = "(" + vZ(l.res) + ", " + vZ(l.size) + ", " + vZ(l.w) + ", " + vZ(l.tk) + ", " + vZ(l.cw) + ", " + vZ(l.sg) + ")"
 		}
 		it[i] = "((" + vZ(l.t) + ", " + vZ(l.a) + ", " + vZ(l.b) + "), " + o + ")"
 	}
@@ -357,7 +371,10 @@ func (e *vEng) observe() {
 	}
 	s, w, t := e.snap()
 	l := &e.labels[len(e.labels)-1]
-	l.obs, l.size, l.w, l.tk, l.cw = true, s, w, t, e.cwait()
+	l.obs, l.size, l.w, l.tk, l.cw, l.sg = true, s, w, t, e.cwait(), e.sigs()
+	if t == 1 {
+		e.out.Stat("observed_stale_bell", 1)
+	}
 }
 
 // ---- consumers parked in Read --------------------------------------------------------------------------
@@ -498,12 +515,24 @@ func (e *vEng) consLabels() {
 			batch = append(batch, c)
 		}
 	}
+	// hand-off order = the order in which the requests entered the queue (collectCons has recorded it in e.accepted as
+	// the consumers' returns came in); ids only break ties for requests not recorded there
+	pos := map[int]int{}
+	for i, id := range e.accepted {
+		pos[id] = i
+	}
+	key := func(id int) int {
+		if i, ok := pos[id]; ok {
+			return i
+		}
+		return len(e.accepted) + id
+	}
 	sort.SliceStable(batch, func(i, j int) bool {
 		a, b := batch[i], batch[j]
 		if a.x.ok != b.x.ok {
 			return a.x.ok
 		}
-		return a.x.ok && a.x.r.id < b.x.r.id
+		return a.x.ok && key(a.x.r.id) < key(b.x.r.id)
 	})
 	for _, c := range batch {
 		c.noted = true
@@ -655,8 +684,11 @@ func (e *vEng) refreshEnq() []*vProd {
 	return nw
 }
 
-// settle waits until every free-running goroutine is parked: no token left to take, every waiter
+// settle waits until every free-running goroutine is parked: no wake-up pending (cond.signals == 0), every waiter
 // counted in cond.waiting, nobody cancelled still waiting, no wait-for-result producer with a pending outcome.
+// A STALE BELL is accepted: since the repair of F3 (a6d2b6d09) the 1-slot channel may stay full with no wake-up
+// pending (the waiter it was rung for left on its context and took the wake-up with it) — but only while nobody
+// is inside the select: a waiter there takes the bell at once, finds signals == 0 and goes back to the select.
 func (e *vEng) settle(limit time.Duration) bool {
 	dl := time.Now().Add(limit)
 	for i := 0; ; i++ {
@@ -665,7 +697,7 @@ func (e *vEng) settle(limit time.Duration) bool {
 		e.refreshEnq()
 		_, w, tk := e.snap()
 		ws := e.waiters()
-		ok := tk == 0 && w == int64(len(ws))
+		ok := e.sigs() == 0 && w == int64(len(ws)) && (tk == 0 || len(ws) == 0)
 		if int64(e.liveCons()) != e.cwait() { // a consumer is running: it was signalled, or has not parked yet
 			ok = false
 		}
@@ -711,7 +743,7 @@ func (e *vEng) settle(limit time.Duration) bool {
 	}
 }
 
-// number of engines that stopped answering (outside the planned F3 runs): on a tree that dead-locks often the
+// number of engines that stopped answering: on a tree that dead-locks often the
 // generator stops early instead of paying a deadline per case (the oracle failures found so far are reported)
 var vDeadCount int
 
@@ -722,9 +754,28 @@ func (e *vEng) unstable(where string) {
 	for _, p := range e.waiters() {
 		ws = append(ws, fmt.Sprintf("p%d(sz=%d,cancelled=%v)", p.id, p.sz, p.cancelled))
 	}
-	s, w, t := int64(-1), int64(-1), int64(len(e.cnd.ch))
-	e.oracle("queue-does-not-settle", fmt.Sprintf("after %s kind=%s cap=%d size=%d waiting=%d tok=%d not_returned=[%s]",
-		where, e.kindName(), e.cap, s, w, t, strings.Join(ws, " ")))
+	// what the cond says, if the mutex can be had (it cannot in a dead-lock): a `waiting` that differs from the number
+	// of producers really inside Wait (ghost waiters) or a wake-up that nobody takes shows here
+	s, w, t, g := int64(-1), int64(-1), int64(len(e.cnd.ch)), int64(-1)
+	if e.mu.TryLock() {
+		w = e.cnd.waiting
+		if f := reflect.ValueOf(e.cnd).Elem().FieldByName("signals"); f.IsValid() {
+			g = f.Int()
+		}
+		if e.kind == 0 {
+			s = e.mq.size
+		} else {
+			s = e.pq.queueSize
+		}
+		e.mu.Unlock()
+	}
+	e.oracle("queue-does-not-settle", fmt.Sprintf("after %s kind=%s cap=%d size=%d waiting=%d tok=%d signals=%d producers_inside_wait=%d not_returned=[%s]",
+		where, e.kindName(), e.cap, s, w, t, g, len(ws), strings.Join(ws, " ")))
+	if s >= 0 {
+		// the mutex is free: the property's own oracle applies to what the queue looks like now (a producer that
+		// stays parked on an empty idle queue is a lost wake-up whatever the reason)
+		e.stableOracle()
+	}
 }
 
 // ---- the property's direct oracle at a stable point -----------------------------------------------
@@ -862,6 +913,9 @@ func (e *vEng) opOffer(p *vProd) {
 			res = vErrClass(p.ret)
 		}
 		e.lab(tag, int64(p.id), p.sz, res)
+		if res == 4 && !p.returned {
+			e.staleTake(p)
+		}
 		// since fix 03fbf1134 the error paths Signal: a parked producer may be woken (it re-checks; no space was freed)
 		e.wakeLabels(n0f, e.newlyEnq(enq0f))
 		e.observe()
@@ -916,6 +970,7 @@ func (e *vEng) opOffer(p *vProd) {
 			e.lab(9, int64(p.id), 0, 8)
 		} else {
 			e.lab(0, int64(p.id), p.sz, 4)
+			e.staleTake(p)
 			e.lab(2, int64(p.id), 0, 0)
 			e.lab(4, int64(p.id), 0, 8)
 		}
@@ -938,6 +993,9 @@ func (e *vEng) opOffer(p *vProd) {
 	e.lab(0, int64(p.id), p.sz, res)
 	if p.enq {
 		e.objAfter(p.id)
+	}
+	if res == 4 {
+		e.staleTake(p)
 	}
 	e.observe()
 	if res == 99 {
@@ -986,6 +1044,17 @@ func (e *vEng) refusedUnchanged(p *vProd, res, sizeBefore int64, queuedBefore in
 	if size != sizeBefore || len(e.itemIDs()) != queuedBefore || p.enq {
 		e.oracle("refused-offer-changed-the-queue", fmt.Sprintf("kind=%s class=%d sz=%d size %d->%d queued %d->%d enqueued=%v",
 			e.kindName(), res, p.sz, sizeBefore, size, queuedBefore, len(e.itemIDs()), p.enq))
+	}
+}
+
+// staleTake: a producer that parked in this very operation and went round cond.Wait's select more than once took a
+// bell that was rung for nobody (no wake-up was pending at the last stable point, so the bell was stale): LSelTok,
+// then LRelockTok finds signals == 0 and goes back to the select, still counted
+func (e *vEng) staleTake(p *vProd) {
+	for i := p.ctx.n.Load(); i > 1; i-- {
+		e.lab(1, int64(p.id), 0, 0)
+		e.lab(3, int64(p.id), 0, 4)
+		e.out.Stat("stale_bell_taken", 1)
 	}
 }
 
@@ -1192,7 +1261,8 @@ func (e *vEng) opCancel(p *vProd) {
 	p.cancelled = true
 	if !e.settle(2 * time.Second) {
 		e.lab(5, int64(p.id), 0, 0)
-		if wasWaiter || wasAwait {
+		e.collect()
+		if (wasWaiter || wasAwait) && !p.returned {
 			e.oracle("cancelled-producer-not-returned", fmt.Sprintf("kind=%s free-running p%d", e.kindName(), p.id))
 		}
 		e.unstable("cancel")
@@ -1521,6 +1591,21 @@ func vForcedEnq(out *vOut, rng *vRand, c int) {
 	}
 	e.mu.Unlock()
 	stable := e.settle(3 * time.Second)
+	// the order in which the lined-up Offers actually ran is the order in which their requests entered the queue
+	// (e.accepted: what the consumers popped, then what is still queued) — not necessarily the order in which the
+	// goroutines were started: one of them can be descheduled between announcing itself on the mutex and parking
+	pos := map[int]int{}
+	for i, id := range e.accepted {
+		pos[id] = i
+	}
+	sort.SliceStable(ps, func(i, j int) bool {
+		a, aok := pos[ps[i].id]
+		b, bok := pos[ps[j].id]
+		if aok != bok {
+			return aok
+		}
+		return aok && a < b
+	})
 	for _, p := range ps {
 		res := int64(0)
 		if wfr {
@@ -1776,15 +1861,16 @@ func (e *vEng) opBroadcast() {
 			rew = append(rew, p)
 		}
 	}
-	for _, p := range woken {
-		e.lab(1, int64(p.id), 0, 0)
-	}
+	// repaired cond: Broadcast turns every counted waiter into a pending signal and rings the bell ONCE; each woken
+	// waiter takes one signal and rings again while more are pending, so the wake-ups happen one after the other
 	for _, p := range newEnq {
+		e.lab(1, int64(p.id), 0, 0)
 		e.objBefore(p.id)
 		e.lab(3, int64(p.id), 0, 0)
 		e.objAfter(p.id)
 	}
 	for _, p := range rew {
+		e.lab(1, int64(p.id), 0, 0)
 		e.lab(3, int64(p.id), 0, 4)
 		e.out.Stat("rewait", 1)
 	}
@@ -1836,6 +1922,146 @@ func vBcast(out *vOut, rng *vRand, c int) {
 	e.emit()
 }
 
+// a lined-up OnDone of a forced schedule
+type vDn struct {
+	id  int
+	fin chan struct{}
+}
+
+// one section of a forced schedule: 0 OnDone(id), 1 re-lock of a cancelled waiter, 2 a parked producer takes the bell,
+// 3 its re-lock
+type vFEv struct {
+	kind int
+	p    *vProd
+	id   int
+}
+
+// vForcedOrder searches an interleaving of the plan (fixed order) with the bell-takes and re-locks of the woken
+// producers `takers` that ends with the observed cond state.  It replays the cond's bookkeeping only to CHOOSE the
+// label order; whether that order (with the observed results) is a behaviour of the queue is decided by the Coq
+// model.  A parked producer takes a rung bell at once (channel sends go straight to a blocked receiver); admitted
+// producers re-lock in queue order; the plan order (all re-locks last) is tried first.
+func vForcedOrder(plan []any, takers []*vProd, w0, wantW, wantS, wantTk int64) ([]vFEv, bool) {
+	n := len(takers)
+	st := make([]int, n) // 0 inside the select, 1 took the bell, 2 re-locked
+	var seq []vFEv
+	var rec func(pi int, w, s, tok int64) bool
+	rung := func(cont func(tok int64) bool) bool {
+		some := false
+		for i := 0; i < n; i++ {
+			if st[i] == 0 {
+				some = true
+				st[i] = 1
+				seq = append(seq, vFEv{kind: 2, p: takers[i]})
+				if cont(0) {
+					return true
+				}
+				seq = seq[:len(seq)-1]
+				st[i] = 0
+			}
+		}
+		if !some {
+			return cont(1)
+		}
+		return false
+	}
+	rec = func(pi int, w, s, tok int64) bool {
+		if pi == len(plan) {
+			all := true
+			for i := range st {
+				if st[i] != 2 {
+					all = false
+				}
+			}
+			if all {
+				return w == wantW && s == wantS && tok == wantTk
+			}
+		}
+		if pi < len(plan) {
+			ok := false
+			switch v := plan[pi].(type) {
+			case *vDn:
+				seq = append(seq, vFEv{kind: 0, id: v.id})
+				switch {
+				case w == 0:
+					ok = rec(pi+1, w, s, tok)
+				case tok == 1:
+					ok = rec(pi+1, w-1, s+1, 1)
+				default:
+					ok = rung(func(t int64) bool { return rec(pi+1, w-1, s+1, t) })
+				}
+			case *vProd:
+				seq = append(seq, vFEv{kind: 1, p: v})
+				if w == 0 {
+					ok = rec(pi+1, w, s-1, tok)
+				} else {
+					ok = rec(pi+1, w-1, s, tok)
+				}
+			}
+			if ok {
+				return true
+			}
+			seq = seq[:len(seq)-1]
+		}
+		for i := 0; i < n; i++ {
+			if st[i] != 1 || s <= 0 {
+				continue
+			}
+			if takers[i].enq {
+				early := false
+				for j := 0; j < i; j++ {
+					if takers[j].enq && st[j] != 2 {
+						early = true
+					}
+				}
+				if early {
+					continue
+				}
+			}
+			st[i] = 2
+			seq = append(seq, vFEv{kind: 3, p: takers[i]})
+			w2, s2 := w, s-1
+			if !takers[i].enq {
+				w2++ // it did not fit and waits again
+			}
+			ok := false
+			if s2 > 0 && tok == 0 {
+				ok = rung(func(t int64) bool { return rec(pi, w2, s2, t) })
+			} else {
+				ok = rec(pi, w2, s2, tok)
+			}
+			if ok {
+				return true
+			}
+			seq = seq[:len(seq)-1]
+			st[i] = 1
+		}
+		return false
+	}
+	if rec(0, w0, 0, 0) {
+		return seq, true
+	}
+	// unexplained: the plan order, every OnDone's bell taken at once, all re-locks last
+	seq = nil
+	ti := 0
+	for _, x := range plan {
+		switch v := x.(type) {
+		case *vDn:
+			seq = append(seq, vFEv{kind: 0, id: v.id})
+			if ti < n {
+				seq = append(seq, vFEv{kind: 2, p: takers[ti]})
+				ti++
+			}
+		case *vProd:
+			seq = append(seq, vFEv{kind: 1, p: v})
+		}
+	}
+	for _, p := range takers {
+		seq = append(seq, vFEv{kind: 3, p: p})
+	}
+	return seq, false
+}
+
 // number of goroutines blocked in mu.Lock(): sync.Mutex{state int32; sema uint32}, waiters = state >> 3
 func vMutexWaiters(mu *sync.Mutex) int32 {
 	return atomic.LoadInt32((*int32)(unsafe.Pointer(mu))) >> 3
@@ -1846,9 +2072,11 @@ func vMutexWaiters(mu *sync.Mutex) int32 {
 // it lines up, in a chosen order, m OnDone calls (each issues a Signal) and k waiters whose context it
 // cancels (they leave the select on ctx.Done() and queue up on the mutex).  sync.Mutex wakes blocked
 // goroutines in arrival order, so releasing the mutex replays exactly that order of critical sections.
-// Whether the run completes is OBSERVED (deadline), never predicted: the F3 deadlock shows up as an
-// OnDone that does not return with the cancelled producers still not returned.
-var vForcedDeadlocks int
+// Whether the run completes is OBSERVED (deadline), never predicted.  Since the repair of F3 (a6d2b6d09) every such
+// schedule must complete — these are F3's regression streams; a dead-lock (an OnDone that does not return with the
+// cancelled producers still not returned) is reported as the oracle failure cancelled-producer-not-returned, which
+// no known finding covers any more.  What the former F3 schedules leave behind instead is a stale bell: half of the
+// completed runs go on to park a fresh producer, which must take it, find no wake-up and keep waiting.
 
 func vForced(out *vOut, rng *vRand, c int) {
 	kind := rng.Intn(2)
@@ -1867,42 +2095,6 @@ func vForced(out *vOut, rng *vRand, c int) {
 	for i := len(arr) - 1; i > 0; i-- {
 		j := rng.Intn(i + 1)
 		arr[i], arr[j] = arr[j], arr[i]
-	}
-	// budget only: predict whether this plan ends in the known deadlock and cap the number of such runs
-	// (each costs a deadline).  The prediction is never used for the verdict.
-	{
-		w, t, ua, dead := u+k, 0, u, false
-		for _, d := range arr {
-			if d {
-				if w > 0 {
-					w--
-					if t == 1 && ua == 0 {
-						dead = true
-						break
-					}
-					if ua > 0 {
-						ua--
-						t = 0
-					} else {
-						t = 1
-					}
-				}
-			} else if w == 0 {
-				t = 0
-			} else {
-				w--
-			}
-		}
-		limit := 6
-		if vTier() != "quick" {
-			limit = 40
-		}
-		if dead {
-			if vForcedDeadlocks >= limit {
-				return
-			}
-			vForcedDeadlocks++
-		}
 	}
 	capacity := int64(m + 1 + rng.Intn(2))
 	e := vNewEng(out, kind, capacity, true, wfr, false)
@@ -1932,10 +2124,8 @@ func vForced(out *vOut, rng *vRand, c int) {
 	}
 	infl := e.inflightIDs()
 	n0, enq0 := e.selCounts(), e.enqSet()
-	type dn struct {
-		id  int
-		fin chan struct{}
-	}
+	_, w0, _ := e.snap()
+	type dn = vDn
 	var dns []*dn
 	var plan []any // *dn or *vProd in arrival order
 	e.mu.Lock()
@@ -2014,49 +2204,77 @@ func vForced(out *vOut, rng *vRand, c int) {
 				takers = append(takers, p)
 			}
 		}
-		ti := 0
-		for _, x := range plan {
-			switch v := x.(type) {
-			case *dn:
-				e.lab(7, int64(v.id), 0, 0)
-				if ti < len(takers) {
-					e.lab(1, int64(takers[ti].id), 0, 0)
-					ti++
-				}
-			case *vProd:
-				e.lab(4, int64(v.id), 0, 8)
-				if vErrClass(v.ret) != 8 {
-					e.oracle("cancelled-waiter-wrong-result", fmt.Sprintf("forced p%d returned %v", v.id, v.ret))
-				}
-			}
+		// The order of the lined-up sections is known (the plan); when the woken producers re-locked is not: a producer
+		// woken by the first OnDone's bell may get the mutex before the next lined-up OnDone (sync.Mutex lets a running
+		// goroutine barge in until starvation mode sets in), and since the repair of F3 that shows in the end state —
+		// a ring on a bell that is still full is dropped.  vForcedOrder picks, plan order first, an interleaving whose
+		// end state (waiting, signals, bell) is the observed one; the Coq model then has to accept those labels with
+		// every observed result.  No such interleaving: the plan order is emitted and the model decides.
+		_, wEnd, tkEnd := e.snap()
+		seq, explained := vForcedOrder(plan, takers, w0, wEnd, e.sigs(), tkEnd)
+		if !explained {
+			out.Stat("forced_order_unexplained", 1)
 		}
-		if e.wfr {
-			for _, x := range dns {
-				if p := e.prods[x.id]; p.returned {
-					e.lab(8, int64(x.id), 0, 100)
-					if p.ret != nil {
-						e.oracle("wait-for-result-wrong-outcome", fmt.Sprintf("forced p%d got %v want nil", x.id, p.ret))
+		relocksStarted := false
+		for _, ev := range seq {
+			switch ev.kind {
+			case 0:
+				if relocksStarted {
+					out.Stat("forced_order_barging", 1)
+					relocksStarted = false
+				}
+				e.lab(7, int64(ev.id), 0, 0)
+				if e.wfr {
+					// the producer's receive (which returns its blockingDone to the pool) before any woken producer's
+					// re-lock (which may Get that very object)
+					if p := e.prods[ev.id]; p.returned {
+						e.lab(8, int64(ev.id), 0, 100)
+						if p.ret != nil {
+							e.oracle("wait-for-result-wrong-outcome", fmt.Sprintf("forced p%d got %v want nil", ev.id, p.ret))
+						}
 					}
 				}
-			}
-		}
-		for _, p := range takers {
-			res := int64(4)
-			if p.enq {
-				res = 0
-				if e.wfr {
-					res = 5
+			case 1:
+				e.lab(4, int64(ev.p.id), 0, 8)
+				if vErrClass(ev.p.ret) != 8 {
+					e.oracle("cancelled-waiter-wrong-result", fmt.Sprintf("forced p%d returned %v", ev.p.id, ev.p.ret))
 				}
-				e.objBefore(p.id)
-			}
-			e.lab(3, int64(p.id), 0, res)
-			if p.enq {
-				e.objAfter(p.id)
+			case 2:
+				e.lab(1, int64(ev.p.id), 0, 0)
+			case 3:
+				relocksStarted = true
+				p := ev.p
+				res := int64(4)
+				if p.enq {
+					res = 0
+					if e.wfr {
+						res = 5
+					}
+					e.objBefore(p.id)
+				}
+				e.lab(3, int64(p.id), 0, res)
+				if p.enq {
+					e.objAfter(p.id)
+				}
 			}
 		}
 		e.observe()
 		e.stableOracle()
 		out.Stat("forced_completed", 1)
+		if _, _, tk := e.snap(); tk == 1 {
+			out.Stat("forced_left_stale_bell", 1)
+		}
+		if rng.Intn(2) == 0 {
+			// fill up until a fresh producer parks: it meets the stale bell, if there is one
+			for i := 0; i < int(capacity)+1 && !e.dead; i++ {
+				p := e.newProd(next, 1)
+				next++
+				e.opOffer(p)
+				if !p.returned && !p.enq {
+					break
+				}
+			}
+		}
 		// drain
 		for guard := 0; guard < 50 && !e.dead; guard++ {
 			if e.queued() > 0 {
@@ -2073,6 +2291,7 @@ func vForced(out *vOut, rng *vRand, c int) {
 	}
 	// not completed within the deadline: some OnDone is stuck in Signal holding the mutex
 	e.dead = true
+	vDeadCount++
 	out.Stat("forced_deadlocked", 1)
 	signals, relocked := 0, 0
 	ti := 0
@@ -2109,7 +2328,7 @@ func vForced(out *vOut, rng *vRand, c int) {
 	}
 	if len(e.labels) > 0 {
 		l := &e.labels[len(e.labels)-1]
-		l.obs, l.size, l.w, l.tk, l.cw = true, -1, -1, int64(len(e.cnd.ch)), -1
+		l.obs, l.size, l.w, l.tk, l.cw, l.sg = true, -1, -1, int64(len(e.cnd.ch)), -1, -1
 	}
 	e.collect()
 	notRet := 0
@@ -2122,8 +2341,15 @@ func vForced(out *vOut, rng *vRand, c int) {
 	if blocked && signals > 0 {
 		bs = 1
 	}
-	e.oracle("cancelled-producer-not-returned", fmt.Sprintf("forced kind=%s blocked_signal=%d left_on_ctx=%d signals=%d uncancelled_in_select=%d tok=%d",
-		e.kindName(), bs, notRet, signals, len(unc)-ti, len(e.cnd.ch)))
+	if notRet > 0 || bs == 1 {
+		e.oracle("cancelled-producer-not-returned", fmt.Sprintf("forced kind=%s blocked_signal=%d left_on_ctx=%d signals=%d uncancelled_in_select=%d tok=%d",
+			e.kindName(), bs, notRet, signals, len(unc)-ti, len(e.cnd.ch)))
+	} else {
+		// every lined-up section ran and every cancelled producer returned, but the queue does not come to rest
+		// (a wake-up nobody takes, a waiter that is not counted, ...): say what the cond looks like
+		vDeadCount--
+		e.unstable("forced schedule")
+	}
 	e.emit()
 	// release the stuck goroutines (the package's TestMain checks for leaks): drain the cond's channel by hand
 	for _, id := range e.order {
